@@ -20,7 +20,7 @@ var ops = map[string]func([]string) string{}
 func reg(name string, f func([]string) string) { ops[name] = f }
 
 // rename ops in the debug build so that the driver selects the debug model
-var debugRename = map[string]string{"p2i": "p2id", "p2il": "p2ild"}
+var debugRename = map[string]string{"p2i": "p2id", "p2il": "p2ild", "p2iseq": "p2iseqd", "p2ilseq": "p2ilseqd"}
 
 func runLine(line string) (string, string) {
 	toks := strings.Split(line, " ")
